@@ -64,7 +64,7 @@ COMPONENT_STRINGS = {
     'PO-Revision-Date': ['2012-13-01 14:42+0100', '2012-02-30 14:42+0100', '0000-01-01 00:00+0000', '9999-12-31 23:59+1400', '2012-11-01 24:00+0100',
                          '2012-11-01 14:42+2400', '2012-11-01 14:42 CEST', '2012-11-01 14:42 EST', '2012-11-01T14:42', '2012-11-01 14:42+01:00',
                          '2012-11-01 14:42GMT+0100', 'YEAR-MO-DA HO:MI+ZONE', '2012-11-01 14:42\u00a0+0100', '٢٠١٢-١١-٠١ 14:42+0100', '2012-11-01 14:42-0000',
-                         '2012-11-01 14:42+9999', '1-1-1 1:1+1'],
+                         '2012-11-01 14:42+9999', '1-1-1 1:1+1', '0001-01-01 00:00+0100', '0001-01-01 00:00+1400', '9999-12-31 23:59-0100', '9999-12-31 23:59-1200'],
     'Language': ['pl\n', 'pl_PL.UTF-8@euro', 'xx', 'pol', 'zzz', 'Polish', 'pl_XX', 'p', 'pl-PL', 'PL', 'pl_pl', 'sr@latin', 'ca@valencia', 'pl.' + 'a' * 3000,
                  'English (British)', 'en_GB;en_US', 'é', ''],
     'Content-Type': ['text/plain; charset=' + c for c in ['idna', 'punycode', 'rot13', 'rot_13', 'base64', 'hex', 'uu', 'zlib', 'bz2', 'quopri', 'utf-16', 'utf-32', 'utf-7',
@@ -176,6 +176,14 @@ def gen_files(ctx, d):
         for lang in (langs if not ctx.quick() else rng.sample(langs, 4) + (['el', 'ja'] if cs.upper() in ('EUC-TW', 'KOI8-T', 'VISCII', 'KOI8-RU', 'GEORGIAN-PS') else [])):
             text = 'msgid ""\nmsgstr ""\n"Content-Type: text/plain; charset=%s\\n"\n"Language: %s\\n"\n\nmsgid "a"\nmsgstr "b"\n' % (cs, lang)
             files.append((w(d, 'lc%d.po' % i, text), 'language-x-charset'))
+            i += 1
+    # an XML text declaration naming an encoding Python cannot use, in a message of a po4a document (D31)
+    for encname in ['foo', 'hex', 'rot13', 'idna', 'cp932', 'UTF-8', 'utf-16', 'ascii']:
+        for slot in ('msgid', 'msgstr'):
+            decl = '<?xml version=\\"1.0\\" encoding=\\"%s\\"?>x' % encname
+            text = ('msgid ""\nmsgstr ""\n"Content-Type: text/plain; charset=UTF-8\\n"\n"Language: pl\\n"\n\n#. type: Content of: <para>\n'
+                    'msgid "%s"\nmsgstr "%s"\n' % (decl if slot == 'msgid' else 'a', decl if slot == 'msgstr' else 'b'))
+            files.append((w(d, 'xd%d.po' % i, text), 'component:xml-text-declaration'))
             i += 1
     # flags and ranges
     for fl in ['range:' + '9' * 5000 + '..' + '9' * 5001, 'range:1..', 'range:..', 'range: 1..2 ', 'range:2..1', 'range:1..2, range:1..3', ', ,', 'fuzzy, fuzzy', '\x1b', 'c-format, no-c-format']:
@@ -414,6 +422,8 @@ def classify_known(name, data, errs, rc):
         return 'D14'
     if 'UnicodeError' in errs and b'charset=idna' in data:
         return 'D11'
+    if re.search(rb'<\?xml[^>]*encoding=', data) and b'type: Content of:' in data and ('lib/xml.py' in errs or 'ExternalEntityRef' in errs):
+        return 'D31'
     if 'RecursionError' in errs:
         m = re.search(rb'plural=([^;]+);', data)
         if m:
